@@ -1121,6 +1121,23 @@ def bytes_method(ctx, interp, recv, name, args, kwargs, node):
         raise Unsupported('startswith on rope', node)
     if name == '__len__':
         return VInt(recv.length())
+    if name == 'find':
+        # data.find(needle, start): single-byte literal needle on one array slice
+        nb = args[0].conc_bytes() if isinstance(args[0], VBytes) else None
+        if nb is None or len(nb) != 1 or len(recv.segs) != 1 or recv.segs[0][0] != 'a':
+            raise Unsupported('bytes.find shape', node)
+        _, arr, off, ln = recv.segs[0]
+        start = args[1].t if len(args) > 1 else z3.IntVal(0)
+        l = z3.Int(fresh_name('found'))
+        k = z3.Int(fresh_name('k'))
+        s0 = z3.If(start < 0, 0, start)
+        none = z3.And(l == -1, z3.ForAll([k], z3.Implies(z3.And(k >= s0, k < ln),
+                                                         z3.Select(arr, off + k) != nb[0])))
+        some = z3.And(l >= s0, l < ln, z3.Select(arr, off + l) == nb[0],
+                      z3.ForAll([k], z3.Implies(z3.And(k >= s0, k < l),
+                                                z3.Select(arr, off + k) != nb[0])))
+        i = ctx.choose([some, none], 'find')
+        return VInt(l)
     raise Unsupported('bytes method %s' % name, node)
 
 
